@@ -132,6 +132,20 @@ class CachedGuardStream(Stream):
             'equals a fresh uncached Guard on the same storage at that moment. non-trivial = history with a '
             'mutation between two asks of the same inquiry whose answer changes')
 
+    def corpus(self):
+        # a list-valued and a tuple-valued action: two different inquiries that a rule-based policy separates
+        pol = {'uid': 'u0', 'effect': 'allow', 'subjects': [['r', ['Any']]], 'resources': [['r', ['Any']]],
+               'actions': [['r', ['AnyIn', ['read', 'write']]]], 'context': [], 'description': None, 'tags': ['<', '>']}
+        qa = {'resource': 'r', 'action': ['read'], 'subject': 's', 'context': None}
+        qb = dict(qa, action={'T': ['read']})
+        out = []
+        for cap in (None, 1, 2, 256):
+            for order in ([0, 1], [1, 0], [0, 1, 0, 1]):
+                out.append({'checker': 'CRules', 'backend': 'memory', 'rxtable': [], 'inquiries': [qa, qb],
+                            'classes': [0, 1], 'cap': cap, 'custom': False, 'ops': [['add', pol]] + [['ask', k] for k in order],
+                            'drop_handle': False, 'reuse': False})
+        return out
+
     def generate(self, rng, tier):
         n = 320 if tier == 'quick' else 3000
         for i in range(n):
@@ -154,6 +168,15 @@ class CachedGuardStream(Stream):
                 if not isinstance(specs.py(q['context']), (dict, type(None))):
                     q['context'] = None
                 inqs.append(q)
+            # twins that differ only in list versus tuple for one attribute: different content, so different cache
+            # entries (rules such as AnyIn / Eq tell them apart)
+            for q in list(inqs):
+                for f in ('resource', 'action', 'subject'):
+                    v = q[f]
+                    if isinstance(v, list) and rng.random() < 0.6:
+                        inqs.append(dict(q, **{f: {'T': v}}))
+                    elif isinstance(v, dict) and set(v) == {'T'} and rng.random() < 0.6:
+                        inqs.append(dict(q, **{f: v['T']}))
             # content classes: equal specs share a class id
             classes = []
             seen = {}
